@@ -165,6 +165,37 @@ func TestC09OpenCells(t *testing.T) {
 			st.NonTrivial(src, func() any { return map[string]any{"src": src, "compile": "accepted"} })
 		}
 	}
+	// what a name can stand for when process code or a with-list reads it: a capture, a
+	// named loop (a table, not a string), a capture inside a named loop, a definition, a
+	// built-in, nothing at all
+	for _, read := range []string{"return '<' + NAME + '>'", "if NAME == '' then return 'e' end return 'n'", "return head NAME + tail NAME", "set v to NAME return v + matchLength"} {
+		for _, name := range []string{"d", "parts", "w", "nosuch", "lineNumber", "f", "value"} {
+			body := strings.ReplaceAll(read, "NAME", name)
+			for _, src := range []string{
+				"set w to pattern at least 1 letter set f to transform " + body + " end replace all w at least 0 (digit = d) named parts with f ':' " + name,
+				"set f to transform " + body + " end replace all at least 1 ((digit = d) maybe '-') named parts fewest letter with f f",
+				"set w to pattern digit begin " + strings.ReplaceAll(strings.ReplaceAll(body, "return 'e'", "return true"), "return 'n'", "return false") + " end find all at least 1 w named parts",
+			} {
+				st.Eval()
+				v, err, p := CompileSafe(src)
+				if p != nil {
+					Fail(t, Failure{Property: "C09", Kind: "crash", What: "Compile panicked on " + src + ": " + p.Sig(), Case: CrashCase{Src: src, Text: "ab"}, Sig: p.Sig()})
+				}
+				if err != nil {
+					st.Count("rejected_by_compile")
+					continue
+				}
+				st.Count("accepted_by_compile")
+				for _, text := range []string{"ab12 c3-4d", "7", ""} {
+					res := RunSafe(v, text, vmLimitCrash)
+					if res.Panic != nil {
+						Fail(t, Failure{Property: "C09", Kind: "crash", What: fmt.Sprintf("%s on %q: accepted by Compile, but Run panicked: %s", src, text, res.Panic.Sig()), Case: CrashCase{Src: src, Text: text}, Sig: res.Panic.Sig()})
+					}
+				}
+				st.NonTrivial(src, func() any { return map[string]any{"src": src, "compile": "accepted"} })
+			}
+		}
+	}
 }
 
 func TestC09(t *testing.T) {
